@@ -183,6 +183,51 @@ def leftover_check(text, unit, forbidden=(r"\bstd::", r"\bauto\b", r"::", r"\bth
                                   (unit, rx, ln, t[max(0, m.start() - 30):m.end() + 30]))
 
 
+C_WORDS = set("if else while for do switch case default return sizeof break continue goto static inline const unsigned signed int long short char void bool "
+              "struct union enum typedef extern volatile size_t uint8_t uint16_t uint32_t uint64_t int8_t int16_t int32_t int64_t abs malloc free memset memcpy "
+              "defined assert".split())
+
+
+def pull_helpers(text, source_file, manifest, rules=()):
+    """free helper functions of the repository file that the extracted text calls but does not define (e.g. a few lines a
+    refactoring moved into a `static int f(int)`): prototypes are put in front of the unit, the definitions (verbatim up to
+    `rules`) behind it.  Scalar signatures only; anything else stays undefined and the jobs report it as infrastructure."""
+    src = Source(source_file, manifest)
+    plain = strip_comments(text)
+    defined = set(re.findall(r"\b(\w+)\s*\([^;{}()]*(?:\([^()]*\)[^;{}()]*)*\)\s*(?:__CPROVER_\w+\s*\((?:[^()]|\([^()]*\))*\)\s*)*\{", plain))
+    defined |= set(re.findall(r"#define\s+(\w+)\(", text))
+    called = set(re.findall(r"\b([A-Za-z_]\w*)\s*\(", plain))
+    protos, defs, pulled = [], [], []
+    todo = sorted(c for c in called - defined - C_WORDS if not c.startswith(("__CPROVER", "nondet_", "h_", "VL_", "COVER", "EV_", "FILE_", "TB_", "OUT_", "VERIF_")))
+    seen = set()
+    while todo:
+        name = todo.pop()
+        if name in seen:
+            continue
+        seen.add(name)
+        m = re.search(r"(?:^|\n)\s*(?:static |inline |constexpr )*(int|unsigned|size_t|bool|uint32_t|uint64_t|long) %s\(([^()]*)\)\s*\{" % re.escape(name), src.text)
+        if not m:
+            continue
+        params = [" ".join(x.split()) for x in m.group(2).split(",") if x.strip()]
+        if not all(re.fullmatch(r"(?:const )?(?:int|unsigned|size_t|bool|uint32_t|uint64_t|long|char) \w+", q) for q in params):
+            continue
+        lb = m.end() - 1
+        body = src.text[lb:match_close(src.text, lb) + 1]
+        body = rewrite(body, list(rules), "helper " + name, manifest) if rules else body
+        try:
+            leftover_check(body, "helper " + name)
+        except ExtractionError:
+            continue
+        sig = "static %s %s(%s)" % (m.group(1), name, ", ".join(params) or "void")
+        protos.append(sig + ";")
+        defs.append(sig + " " + body)
+        pulled.append(name)
+        todo += [c for c in re.findall(r"\b([A-Za-z_]\w*)\s*\(", strip_comments(body)) if c not in defined and c not in C_WORDS and c not in seen]
+    if pulled:
+        manifest.append({"unit": "helper functions pulled from " + source_file, "functions": pulled})
+    return "\n".join(protos) + ("\n" if protos else ""), "\n".join(defs) + ("\n" if defs else "")
+
+
 # --------------------------------------------------------------------------------------------
 # running tools
 # --------------------------------------------------------------------------------------------
@@ -397,6 +442,12 @@ def run_job(job, workdir):
             out["error"] = "could not enumerate obligations: " + (e0 or o0)[-500:]
             out["secs"] = time.time() - t0
             return out
+        nb = sorted(set(p["name"].split(".no-body.")[-1] for p in props_listed if ".no-body." in p["name"]) |
+                    set(p["name"].split(".assertion.")[0] for p in props_listed if "undefined function should be unreachable" in p.get("description", "")))
+        if nb:
+            out["error"] = "extracted unit calls functions it does not define (%s): extraction incomplete" % ", ".join(nb[:6])
+            out["secs"] = time.time() - t0
+            return out
         cmd += ["--stop-on-fail"]
     out["checker_cmd"] = " ".join(cmd)
     rc, o, e, secs = run(cmd, cwd=d, timeout=job.timeout, mem_gb=job.mem_gb)
@@ -488,6 +539,14 @@ def run_job(job, workdir):
         out["unwind_insufficient"] = [f["name"] for f in uw]
         out["status"] = "error"
         out["error"] = "unwinding bound too small (loop no longer within the stated bound): %s" % ", ".join(f["name"] for f in uw[:4])
+        return out
+    # a call to a function the unit does not define (a helper the extractor did not bring along) is havoc to CBMC: whatever
+    # the other obligations say then is about a different program.  Infrastructure, never a verdict.
+    nb = [f for f in out["failed"] if ".no-body." in f["name"] or f["desc"].startswith("no body for callee") or "undefined function should be unreachable" in f["desc"]]
+    if nb:
+        out["failed"] = []
+        out["status"] = "error"
+        out["error"] = "extracted unit calls functions it does not define (%s): extraction incomplete" % ", ".join(sorted(set(re.split(r"\.no-body\.|\.assertion\.", f["name"])[-1 if ".no-body." in f["name"] else 0] for f in nb))[:6])
         return out
     out["status"] = "proved" if not out["failed"] else "failed"
     return out
